@@ -673,6 +673,72 @@ func (pr *Program) modeG(baselinePath string) []*Obl {
 		}
 	}
 	add("gsHexDecodeMap/digit-values", badHex, "256 entries, hex digit values correct, 256 elsewhere")
+	// C06 / C10: the dispatch table against the reference byte classes of the libinjection algorithm
+	{
+		ref := func(i int) string {
+			switch {
+			case i <= 32 || i == 127 || i == 160:
+				return "parseWhite"
+			case i == '!' || i == '&' || i == '*' || i == ':' || i == '<' || i == '=' || i == '>' || i == '|':
+				return "parseOperator2"
+			case i == '"' || i == '\'':
+				return "parseString"
+			case i == '#':
+				return "parseHash"
+			case i == '$':
+				return "parseMoney"
+			case i == '%' || i == '+' || i == '^' || i == '~':
+				return "parseOperator1"
+			case i == '(' || i == ')' || i == ',' || i == ';' || i == '{' || i == '}':
+				return "parseByte"
+			case i == '-':
+				return "parseDash"
+			case i == '.' || (i >= '0' && i <= '9'):
+				return "parseNumber"
+			case i == '/':
+				return "parseSlash"
+			case i == '?' || i == ']':
+				return "parseOther"
+			case i == '@':
+				return "parseVar"
+			case i == 'B' || i == 'b':
+				return "parseBString"
+			case i == 'E' || i == 'e':
+				return "parseEString"
+			case i == 'N' || i == 'n':
+				return "parseNqString"
+			case i == 'Q' || i == 'q':
+				return "parseQString"
+			case i == 'U' || i == 'u':
+				return "parseUString"
+			case i == 'X' || i == 'x':
+				return "parseXString"
+			case i == '[':
+				return "parseBWord"
+			case i == '\\':
+				return "parseBackSlash"
+			case i == '`':
+				return "parseTick"
+			}
+			return "parseWord"
+		}
+		var bad, asym []string
+		if len(tb.ByteParsers) != 256 {
+			bad = append(bad, fmt.Sprintf("length %d", len(tb.ByteParsers)))
+		} else {
+			for i, n := range tb.ByteParsers {
+				if n != ref(i) {
+					bad = append(bad, fmt.Sprintf("[%d]=%s want %s", i, n, ref(i)))
+				}
+				if i >= 'a' && i <= 'z' && tb.ByteParsers[i] != tb.ByteParsers[i-32] {
+					asym = append(asym, fmt.Sprintf("%q:%s vs %q:%s", rune(i), n, rune(i-32), tb.ByteParsers[i-32]))
+				}
+			}
+		}
+		sort.Strings(bad)
+		obls = append(obls, staticObl("tables/G/byteParsers/reference-dispatch", "table", []string{"C06"}, len(bad) == 0, firstN(bad, 8), "the evaluated 256-entry dispatch table equals the reference byte classes"))
+		obls = append(obls, staticObl("tables/G/byteParsers/case-symmetric", "table", []string{"C06", "C10"}, len(asym) == 0, firstN(asym, 8), "both cases of every ASCII letter dispatch to the same lexer"))
+	}
 	// baseline
 	var base Tables
 	b, err := os.ReadFile(baselinePath)
